@@ -159,7 +159,7 @@ def run(ctx):
             cov,
             evaluations=cov["states_compared"] + cov["ub_skipped"],
             distinct_nontrivial=len(specs),
-            rule="every (source, target) pair of the 8 integer types in each conversion context (cast, initialisation, assignment, register R/RR/P/alias write, jump target, store data of 8/16/32/64 bit, "
+            rule="every (source, target) pair of the 8 integer types in each conversion context (cast, initialisation, assignment, register R/RR/P/alias write, jump target, data of signed and unsigned stores of 8/16/32/64 bit (also explicitly cast), address of every load / store, "
             "argument and return value of bundled sub-routines and QEMU helpers, loads, register and immediate sources), boolean sources in the same contexts, conversion chains of length 2 (thorough: 3) and assignment chains; "
             "each on the complete E5 domain of its inputs (8-bit sources exhaustively; budget %d states); distinct = distinct program texts, each containing at least one conversion" % budget,
             exhaustive=True,
